@@ -78,6 +78,9 @@ func VerifC16Will() {
 		}
 	} else {
 		vAssert("delayed-will-not-published-early", count() == 0)
+		// and a will that has not been published is not in the retained store either (C05: the store reflects
+		// what was actually published)
+		vAssert("unpublished-will-is-not-retained", s.Topics.Retained.Len() == 0)
 	}
 	// later events: housekeeping tick, optional resuming connection, housekeeping tick
 	due := false
